@@ -102,7 +102,35 @@ def crash_states(kind, scratch, store_path, op_fn, cuts=(0.0, 0.5, -1)):
         shutil.copytree(store_path, d, symlinks=True)
         snaps.append({"k": k, "variant": "", "dir": d})
 
-    events, err = record(root, op_fn, on_event)
+    # the state right after a rename/unlink returns — before anything the process still holds in a
+    # buffer reaches the file (e.g. a file renamed into place inside the `with` block that writes it)
+    post = []
+    originals = {n: getattr(os, n) for n in ("rename", "replace", "remove", "unlink")}
+
+    def wrap(name):
+        orig = originals[name]
+
+        def w(*a, **kw):
+            r = orig(*a, **kw)
+            if _state["active"] and a and isinstance(a[0], (str, bytes)) and os.fsdecode(a[0]).startswith(root):
+                _state["active"] = False
+                try:
+                    k = len(_state["events"])
+                    d = os.path.join(scratch, "s%03d-after" % k)
+                    if not os.path.exists(d):
+                        shutil.copytree(store_path, d, symlinks=True)
+                        post.append({"k": k, "variant": "after:" + name, "dir": d})
+                finally:
+                    _state["active"] = True
+            return r
+        return w
+    for n in originals:
+        setattr(os, n, wrap(n))
+    try:
+        events, err = record(root, op_fn, on_event)
+    finally:
+        for n, o in originals.items():
+            setattr(os, n, o)
     # the completed state
     d = os.path.join(scratch, "s%03d" % len(events))
     shutil.copytree(store_path, d, symlinks=True)
@@ -139,4 +167,4 @@ def crash_states(kind, scratch, store_path, op_fn, cuts=(0.0, 0.5, -1)):
                 with open(os.path.join(d2, rel), "wb") as fh:
                     fh.write(data)
                 extra.append({"k": k + 1, "variant": "cut:%s@%d" % (rel, len(data)), "dir": d2})
-    return events, err, snaps + extra
+    return events, err, snaps + extra + post
